@@ -252,25 +252,25 @@ Proof.
   - (* RCid *)
     cbn [step astep fst snd].
     destruct (do_encode_spec n a HR) as (HR' & En & Cn & Ln).
-    rewrite Cn. cbn [odefault]. repeat split; assumption.
+    rewrite Cn. cbn [odefault]. split; [reflexivity| split; [assumption| exact L]].
   - (* RRaw *)
     cbn [step astep fst snd].
     destruct (do_encode_spec n a HR) as (HR' & En & Cn & Ln).
-    rewrite En. cbn [odefault]. repeat split; assumption.
+    rewrite En. cbn [odefault]. split; [reflexivity| split; [assumption| exact L]].
   - (* RLinks *)
     cbn [step astep fst snd]. destruct (settle_spec n a HR) as [HR' Ln]. rewrite Ln.
-    repeat split; assumption.
+    split; [reflexivity| split; [assumption| exact L]].
   - (* RData *)
     cbn [step astep fst snd]. destruct HR as (G & Dd & Bb & S & E & C). rewrite Dd.
-    repeat split; assumption.
+    split; [reflexivity| split; [assumption| exact L]].
   - (* RTree *)
     cbn [step astep fst snd]. destruct (settle_spec n a HR) as [HR' Ln]. rewrite Ln.
-    repeat split; assumption.
+    split; [reflexivity| split; [assumption| exact L]].
   - (* RDecode *)
     cbn [step astep fst snd]. cbn [op_ok] in Hop.
     destruct (do_encode_spec n a HR) as (HR' & En & Cn & Ln).
     rewrite En. cbn [odefault]. unfold a_raw. rewrite decode_encode by (apply a_wf; assumption).
-    repeat split; assumption.
+    split; [reflexivity| split; [assumption| exact L]].
 Qed.
 
 Lemma run_refines_gen : forall ops n a, R n a -> links_ok a -> hist_ok a ops ->
@@ -279,7 +279,7 @@ Lemma run_refines_gen : forall ops n a, R n a -> links_ok a -> hist_ok a ops ->
   links_ok (fst (arun H a ops)).
 Proof.
   induction ops as [|o r IH]; intros n a HR L Hh.
-  - cbn [run arun fst snd]. repeat split; assumption.
+  - cbn [run arun fst snd]. split; [reflexivity| split; assumption].
   - cbn [hist_ok] in Hh. destruct Hh as [Ho Hr].
     destruct (step_refines n a o HR L Ho) as (Eo & HR' & L').
     cbn [run arun].
@@ -289,7 +289,7 @@ Proof.
     rewrite <- Ea' in Hr.
     destruct (IH n' a' HR' L' Hr) as (Eo2 & HR2 & L2).
     destruct (run flags_off H n' r) as [n'' bs]. destruct (arun H a' r) as [a'' bs'].
-    cbn [fst snd] in *. subst. repeat split; assumption.
+    cbn [fst snd] in *. subst. split; [reflexivity| split; assumption].
 Qed.
 
 Lemma links_ok_fresh : forall d, links_ok (afresh d).
@@ -349,7 +349,7 @@ Lemma roundtrip : forall ls d,
   decode (encode (sort_links ls) d) = Some (d, sort_links ls).
 Proof.
   intros ls d Hl Hlen. apply decode_encode. apply node_wf_intro; [|exact Hlen].
-  intros l Hin. apply in_sort in Hin. destruct (Hl l Hin) as [Hc Hs].
+  intros l Hin. apply (proj1 (in_sort _ _)) in Hin. destruct (Hl l Hin) as [Hc Hs].
   split; [exact Hc|]. unfold max_int64 in Hs. unfold two64. lia.
 Qed.
 
@@ -359,8 +359,8 @@ Lemma sorted_stable : forall ls,
   Permutation ls (sort_links ls) /\
   (forall s, Sorted name_le s -> (forall k, filter (name_is k) s = filter (name_is k) ls) -> s = sort_links ls).
 Proof.
-  intro ls. split; [apply sort_sorted|]. split; [apply group_sort|]. split; [apply sort_perm|].
-  intros s S G. apply sort_characterised; assumption.
+  intro ls. split; [apply sort_sorted|]. split; [intro k; exact (group_sort k ls)|]. split; [apply sort_perm|].
+  intros s S G. exact (sort_characterised ls s S G).
 Qed.
 
 Lemma order_independent : forall l1 l2 d,
